@@ -175,7 +175,18 @@ def make_group(r, gid):
     variants.append(q)
     if r.random() < 0.5:
         variants[-1] = dict(variants[-1], via="batch")
-    return {"id": gid, "sig": sig, "binding": binding, "ctx": ctx, "presentations": pres, "variants": variants[:3]}
+    g = {"id": gid, "sig": sig, "binding": binding, "ctx": ctx, "presentations": pres, "variants": variants[:3]}
+    if gid % 3 == 0:
+        # a three-level chain entered at different levels under two context dictionaries and none: the innermost body runs
+        # once per context dictionary (the value domain of context arguments is the argument domain)
+        a, b = rand_value(r, 1), rand_value(r, 1)
+        if json.dumps(canon_spec(a), sort_keys=True) != json.dumps(canon_spec(b), sort_keys=True):
+            steps = [{"ctx": c, "at": at} for c in ("A", "B", "none") for at in ("top", "mid", "leaf")]
+            r.shuffle(steps)
+            g["chain"] = steps[: r.randint(4, 9)]
+            g["chain_ctx"] = {"A": a, "B": b}
+            g["chain_arg"] = rand_value(r, 1)
+    return g
 
 
 def call_term(sig, p):
@@ -301,11 +312,11 @@ def run(prop, tier):
                             "text": texts[h["case"]][:200], "hash": h["hash"]})
             evs += t["ev"]
             traces.append({"cfg": {"sig": g["sig"]}, "ev": evs})
-        payload = [{"cfg": t["cfg"], "ev": [{k: v for k, v in e.items() if k in ("op", "pres", "keyok", "n", "recvok", "exc", "what")}
+        payload = [{"cfg": t["cfg"], "ev": [{k: v for k, v in e.items() if k in ("op", "pres", "keyok", "n", "recvok", "exc", "what", "ctx", "at")}
                                              for e in t["ev"]]} for t in traces]
         for p_ in payload:
             for e in p_["ev"]:
-                e.setdefault("n", 0); e.setdefault("recvok", True); e.setdefault("keyok", True); e.setdefault("what", "")
+                e.setdefault("n", 0); e.setdefault("recvok", True); e.setdefault("keyok", True); e.setdefault("what", ""); e.setdefault("ctx", ""); e.setdefault("at", "")
         rej, vr = tlc.validate_traces("TraceArgKey", payload, wd, timeout=1500)
         rep.add_tlc(vr, "trace validation TraceArgKey")
         rep.cov["traces_validated_against_impl"] = len(traces)
